@@ -778,6 +778,32 @@ class K:
     __len__ = Base.__len__
 OPS = [("new", (), {{}}), ("call", "get"), ("call", "get", 3), ("getattr", "prop"), ("len",)]
 ''',
+    "constructor-keywords-named-like-parameters-of-the-wrappers": '''
+{deco}
+class Base{base}:
+    def get(self):
+        return 1
+class K(Base):
+    """Its constructor takes keywords which the library's own wrappers might use as parameter names."""
+    def __init__(self, klass=0, cls=0, instance=0, args=0, kwargs=0):
+        self.got = (klass, cls, instance, args, kwargs)
+OPS = [("new", (), {{"klass": 1}}), ("getattr", "got"), ("new", (), {{"cls": 2, "instance": 3}}), ("getattr", "got"),
+       ("new", (), {{"args": 4, "kwargs": 5}}), ("getattr", "got"), ("call", "get")]
+''',
+    "constructor-borrowed-by-a-class-without-invariants": '''
+{deco}
+class Base{base}:
+    def __init__(self, x=1):
+        self.x = x
+    def get(self):
+        return self.x
+class K:
+    """Unrelated to Base and without invariants of its own: it borrows the constructor."""
+    __init__ = Base.__init__
+    def get(self):
+        return self.x
+OPS = [("new", (5,), {{}}), ("call", "get"), ("new", (), {{}}), ("getattr", "x")]
+''',
     "singleton-new": '''
 {deco}
 class K{base}:
